@@ -87,6 +87,19 @@ def run(tier, seed):
         for j, body in enumerate([[0x30, 0x80] * n for n in (70, 600, 4000, 16000, 24000, 32700)] + [[0x7f, 0x66, 0x80] + [0x30, 0x80] * n for n in (4000, 16000, 32700)] + [nest_def(n) for n in (70, 700, 8000, 16000)] +
                                  [[0x7f, 0x66, 0x82, (7990 * 4) >> 8, (7990 * 4) & 255] + nest_def(7990)]):
             plans.append({"id": "nest%d" % j, "stage": "cresp", "layer": "ber", "faults": [{"op": "trunc", "at": 0}, {"op": "append", "bytes": body}], "uid": 1004})
+        # identifier octets in every form (X.690 8.1.2): the usual two-octet application tag, the same tag number with
+        # non-minimal continuation octets, as a primitive element, other classes, a tag cut short - each followed by every
+        # length form of the list above (the honest length, sizes no message can have, 2^64 - 1, the indefinite form)
+        tags = [[0x7f, 0x66], [0x5f, 0x66], [0x7f, 0x80, 0x66], [0x5f, 0x80, 0x66], [0x7f, 0x80, 0x80, 0x80, 0x66], [0x5f, 0x80, 0x80, 0x66], [0x1f, 0x66], [0x3f, 0x66], [0xbf, 0x66], [0xff, 0x66],
+                [0x7f, 0xe6, 0x00], [0x7f, 0xff, 0xff, 0xff, 0xff, 0x7f], [0x7f, 0x80], [0x7f], [0x1f, 0x80, 0x80]]
+        for ti, tg in enumerate(tags):
+            for j, lf in enumerate(forms + [[90], [0x81, 90], [0x88, 0, 0, 0, 0, 0, 0, 0, 90], [0x89] + [0xff] * 9, [0x84, 0x7f, 0xff, 0xff, 0xff]]):
+                plans.append({"id": "tag%d-%d" % (ti, j), "stage": "cresp", "layer": "ber", "faults": [{"op": "trunc", "at": 0}, {"op": "append", "bytes": tg + lf + [(7 * i) % 256 for i in range(90)]}], "uid": 1004})
+        # exponential work: k nested indefinite-length elements for k below the depth limit (a reader that walks both the
+        # nested content and the same bytes again as siblings doubles its work at every level)
+        for k2 in (16, 24, 28, 32, 40, 48, 56, 60, 63, 64):
+            for unit in ([0x30, 0x80], [0x30, 0x80, 0xa0, 0x80]):
+                plans.append({"id": "exp%d-%d" % (k2, len(unit)), "stage": "cresp", "layer": "ber", "faults": [{"op": "trunc", "at": 0}, {"op": "append", "bytes": unit * (k2 * 2 // len(unit))}], "uid": 1004})
         plans.append({"id": "selftest", "stage": "attach", "layer": "mcs", "faults": [{"op": "set8", "off": 1, "v": 1}], "uid": 1004})
         pp = os.path.join(wd, "plans.ndjson")
         with open(pp, "w") as f:
